@@ -975,7 +975,7 @@ def _alloc_spec(rng, cfg, path):
     if cfg['caps'] and rng.random() < 0.35:
         maxu = rng.choice([0.5, 1.0, 1.5, 2.0, 4.0])
     return {'path': path, 'reserved': reserved,
-            'rank': rng.choice([None, 100, 100, 50, 10, 150]),
+            'rank': rng.choice([None, 100, 100, 50, 10, 150, 0]),
             'adj': rng.choice([0, 0, 5, 10, 30]) if cfg['adjust'] else 0,
             'maxu': maxu,
             'traits': (rng.choice(cfg['trait_bits']) if cfg['ntraits'] and
